@@ -186,7 +186,7 @@ func HyperTree.RebuildCache
   may_panic
   modifies everything, rebuildSeenLoads, openReaders, tilesRead, readerExhausted, cachePuts
   ensures C08,C09/reads-to-the-end: readerExhausted
-  ensures C08/reader-released: openReaders == old(openReaders)
+  ensures C08,C09/reader-released: openReaders == old(openReaders)
   assumes rebuildSeenLoads == snapshotLoads
   loop 1 modifies tiles[*], tilesRead, readerExhausted, cachePuts
   loop 1 invariant C08,C09/every-tile-cached: cachePuts - old(cachePuts) == tilesRead - old(tilesRead)
